@@ -104,7 +104,7 @@ def prepare(master, tier, extra_bases=None):
 
 class Plan:
     __slots__ = ("index", "seed", "name", "image", "base_index", "faults", "fast_load", "get_code",
-                 "count_steps", "control", "base_desc", "kind")
+                 "count_steps", "control", "base_desc", "kind", "call")
 
     def key_kinds(self):
         return tuple(sorted(set(f["kind"] for f in self.faults)))
@@ -122,8 +122,12 @@ def plan_run(i):
     # swarm: the subset of fault kinds enabled in this run
     kinds = list(simdisk.FAULT_KINDS)
     enabled = [k for k in kinds if rng.chance(2, 3)] or [rng.choice(kinds)]
-    p.fast_load = rng.chance(1, 8)
-    p.get_code = not rng.chance(1, 12)
+    p.fast_load = rng.chance(1, 5)
+    p.get_code = not rng.chance(1, 8)
+    # how the caller names the file and what else it passes: non-ASCII / very long / odd names, a relative path,
+    # a caller-supplied code_objects dict
+    p.call = {"name_style": rng.weighted([("as_is", 12), ("unicode", 1), ("long", 1), ("spaces", 1), ("pyo", 1)]),
+              "relative": rng.chance(1, 10), "code_objects": rng.chance(1, 10)}
     p.count_steps = rng.chance(1, 2)
     mode = rng.weighted([("fault", 80), ("control", 8), ("not_bytecode", 12)])
     p.control = mode == "control"
@@ -163,6 +167,26 @@ def plan_run(i):
     p.image = img
     p.faults = fired
     return p
+
+
+def styled_name(name, style):
+    """the file name as the caller spells it; the pypy38 suffix, which load.py inspects, is always kept"""
+    keep = ""
+    for suf in (".pypy38.pyc", ".pyc", ".pyo"):
+        if name.endswith(suf):
+            keep = suf
+            name = name[: -len(suf)]
+            break
+    if style == "unicode":
+        name = "f\u00fc\u00f1\u4e2d_" + name
+    elif style == "long":
+        name = (name + "_") * 12
+        name = name[:180]
+    elif style == "spaces":
+        name = "a b  " + name + " "
+    elif style == "pyo" and keep == ".pyc":
+        keep = ".pyo"
+    return name + (keep or ".pyc")
 
 
 def predicts_fast_path(image, get_code):
@@ -213,14 +237,27 @@ def _maxrss_kb():
     return resource.getrusage(resource.RUSAGE_SELF).ru_maxrss
 
 
-def _call_under_test(path, fast_load, get_code):
+def _call_under_test(path, fast_load, get_code, call=None):
     from xdis.load import load_module
 
-    with core.FixedHeadroom():
-        return load_module(path, fast_load=fast_load, get_code=get_code)
+    call = call or {}
+    kw = {}
+    if call.get("code_objects"):
+        kw["code_objects"] = {}
+    cwd = None
+    if call.get("relative"):
+        cwd = os.getcwd()
+        os.chdir(os.path.dirname(path))
+        path = os.path.basename(path)
+    try:
+        with core.FixedHeadroom():
+            return load_module(path, fast_load=fast_load, get_code=get_code, **kw)
+    finally:
+        if cwd is not None:
+            os.chdir(cwd)
 
 
-def exec_image(image, name, fast_load, get_code, count_steps, tag="r", kind="file"):
+def exec_image(image, name, fast_load, get_code, count_steps, tag="r", kind="file", call=None):
     """Run the real loader on one stored image.  Returns a record dict:
        outcome: "return" | "ImportError" | "exception" | "steps"
        violation: None or {"class":..., ...signature fields...}
@@ -228,6 +265,8 @@ def exec_image(image, name, fast_load, get_code, count_steps, tag="r", kind="fil
     d = os.path.join(W["rundir"], "%s-%d" % (tag, os.getpid()))
     os.makedirs(d, exist_ok=True)
     _clean_dir(d)  # a previous run cut short by the wall guard may have left its storage object behind
+    call = call or {}
+    name = styled_name(name, call.get("name_style", "as_is"))
     path = os.path.join(d, name)
     if kind == "dir":
         os.mkdir(path)
@@ -261,7 +300,7 @@ def exec_image(image, name, fast_load, get_code, count_steps, tag="r", kind="fil
     audit.arm(path, image)
     try:
         try:
-            result = _call_under_test(path, fast_load, get_code)
+            result = _call_under_test(path, fast_load, get_code, call)
             rec["outcome"] = "return"
         except ImportError as e:
             rec["outcome"] = "ImportError"
@@ -408,7 +447,8 @@ def _batch_child(emit, indices, force_steps=False):
         except Exception:
             pass
         try:
-            rec = exec_image(p.image, p.name, p.fast_load, p.get_code, p.count_steps or force_steps, kind=p.kind)
+            rec = exec_image(p.image, p.name, p.fast_load, p.get_code, p.count_steps or force_steps, kind=p.kind,
+                             call=p.call)
         except _WallGuard:
             rec = {"outcome": "wall_guard", "violation": None, "site": None, "steps": None, "fast_path": False,
                    "exc": None}
@@ -455,7 +495,7 @@ def _sequence_child(emit, items):
         signal.setitimer(signal.ITIMER_REAL, WALL_GUARD_S if k < len(items) - 1 else 4 * WALL_GUARD_S)
         try:
             rec = exec_image(core.unb64(it["image_b64"]), it["name"], it["fast_load"], it["get_code"],
-                             bool(it.get("count_steps")), tag="q", kind=it.get("kind", "file"))
+                             bool(it.get("count_steps")), tag="q", kind=it.get("kind", "file"), call=it.get("call"))
         except _WallGuard:
             # a load that blocks (e.g. on a FIFO) must not hold up the sequence; for the LAST item it is the verdict
             sys.settrace(None)
@@ -502,21 +542,21 @@ def run_sequence(items, wall=None):
 
 def _item_of(plan):
     return {"image_b64": core.b64(plan.image), "name": plan.name, "fast_load": plan.fast_load,
-            "get_code": plan.get_code, "run_index": plan.index, "count_steps": bool(plan.count_steps), "kind": plan.kind}
+            "get_code": plan.get_code, "run_index": plan.index, "count_steps": bool(plan.count_steps), "kind": plan.kind, "call": plan.call}
 
 
-def _single_child(image_b64, name, fast_load, get_code, count_steps, marker, kind="file"):
+def _single_child(image_b64, name, fast_load, get_code, count_steps, marker, kind="file", call=None):
     if marker:
         audit.STATE.marker_fd = os.open(marker, os.O_WRONLY | os.O_CREAT | os.O_TRUNC, 0o600)
-    rec = exec_image(core.unb64(image_b64), name, fast_load, get_code, count_steps, tag="s", kind=kind)
+    rec = exec_image(core.unb64(image_b64), name, fast_load, get_code, count_steps, tag="s", kind=kind, call=call)
     return rec
 
 
-def run_single_image(image, name, fast_load, get_code, force_steps, wall=90.0, kind="file", tag=""):
+def run_single_image(image, name, fast_load, get_code, force_steps, wall=90.0, kind="file", tag="", call=None):
     """One image in its own fork of the zygote.  A signal or a stall is an outcome."""
     flog = os.path.join(W["rundir"], "fault-%d%s.log" % (os.getpid(), tag))
     marker = os.path.join(W["rundir"], "marker-%d%s" % (os.getpid(), tag))
-    r = core.fork_call(_single_child, (core.b64(image), name, fast_load, get_code, force_steps, marker, kind),
+    r = core.fork_call(_single_child, (core.b64(image), name, fast_load, get_code, force_steps, marker, kind, call),
                        timeout=wall, faultlog_path=flog, quiet=True, cpu_limit=CPU_BUDGET_S)
     entered = False
     try:
@@ -622,7 +662,7 @@ def run_shard(shard):
             else:
                 batch.append(i)
         for p in singles:
-            rec = run_single_image(p.image, p.name, p.fast_load, p.get_code, p.count_steps, kind=p.kind)
+            rec = run_single_image(p.image, p.name, p.fast_load, p.get_code, p.count_steps, kind=p.kind, call=p.call)
             account(agg, _compact(p, rec), p)
         if not batch:
             continue
@@ -640,7 +680,7 @@ def run_shard(shard):
                     c["o"] = "unconfirmed_slow"
                     account(agg, c, None)
                     continue
-                rec = run_single_image(p.image, p.name, p.fast_load, p.get_code, True, wall=25.0, kind=p.kind)
+                rec = run_single_image(p.image, p.name, p.fast_load, p.get_code, True, wall=25.0, kind=p.kind, call=p.call)
                 c2 = _compact(p, rec)
                 if c2.get("v") is not None:
                     slow_seen += 1
@@ -654,7 +694,7 @@ def run_shard(shard):
                     slow_seen += 1
                 # re-confirm in isolation (fresh fork); the isolated verdict is the verdict
                 p = plan_run(c["i"])
-                rec = run_single_image(p.image, p.name, p.fast_load, p.get_code, True, kind=p.kind)
+                rec = run_single_image(p.image, p.name, p.fast_load, p.get_code, True, kind=p.kind, call=p.call)
                 c2 = _compact(p, rec)
                 if c2.get("v") is None:
                     c2 = _sequence_verdict(agg, batch, c["i"], c2, {"batch_violation": c["v"]})
@@ -672,7 +712,7 @@ def run_shard(shard):
                 raise core.HarnessError("batch child failed: %s" % (r.value,))
             culprit = rest[0]
             p = plan_run(culprit)
-            rec = run_single_image(p.image, p.name, p.fast_load, p.get_code, True, kind=p.kind)
+            rec = run_single_image(p.image, p.name, p.fast_load, p.get_code, True, kind=p.kind, call=p.call)
             c2 = _compact(p, rec)
             if c2.get("v") is None and r.status == "signal" and int(r.signal or 0) == int(signal.SIGXCPU):
                 # the 4 s per-run CPU guard of the batch ended it, but alone the run stays within the full budget:
@@ -974,11 +1014,11 @@ def _replay_path(master, tag):
     return os.path.join(core.REPLAY_DIR, "C11-%d-py%d%d-%s.json" % (master, sys.version_info[0], sys.version_info[1], tag))
 
 
-def _pred_for(sig, name, fast_load, get_code, kind="file"):
+def _pred_for(sig, name, fast_load, get_code, kind="file", call=None):
     want = sig_key(sig)
 
     def pred(img):
-        rec = run_single_image(img, name, fast_load, get_code, True, kind=kind)
+        rec = run_single_image(img, name, fast_load, get_code, True, kind=kind, call=call)
         v = rec.get("violation")
         return v is not None and sig_key(signature(v)) == want
 
@@ -1039,7 +1079,7 @@ def replay_witnesses(findings):
 
     def one(f, fid, r, k):
         rec = run_single_image(core.unb64(r["image_b64"]), r["name"], r["fast_load"], r["get_code"], True,
-                               kind=r.get("storage_object", "file"), tag="w%d" % k)
+                               kind=r.get("storage_object", "file"), tag="w%d" % k, call=r.get("call"))
         v = rec.get("violation")
         ok = v is not None and matches_finding(signature(v), f)
         with lock:
@@ -1101,7 +1141,7 @@ def report_violations(master, viols, findings, out_lines, evidence_v):
         if x.get("sequence"):
             _report_sequence(master, k, sig, x, group, out_lines, evidence_v)
             continue
-        pred = _pred_for(sig, x["name"], x["fast_load"], x["get_code"], x.get("kind", "file"))
+        pred = _pred_for(sig, x["name"], x["fast_load"], x["get_code"], x.get("kind", "file"), x.get("call"))
         img = x["image"]
         info = {"strategy": ["not minimised"], "tests": 0}
         if sig["class"] == "stall" or (sig["class"] == "not_prompt" and sig.get("by") == "cpu"):
@@ -1117,7 +1157,7 @@ def report_violations(master, viols, findings, out_lines, evidence_v):
         core.write_json_atomic(path, {
             "property": PROP, "master_seed": master, "origin": x.get("origin"), "signature": sig,
             "violation": x["v"], "name": x["name"], "fast_load": x["fast_load"], "get_code": x["get_code"],
-            "storage_object": x.get("kind", "file"),
+            "storage_object": x.get("kind", "file"), "call": x.get("call"),
             "image_b64": core.b64(img), "image_len": len(img), "original_image_b64": core.b64(x["image"]),
             "minimisation": info, "instances_in_run": len(group),
             "host": "%d.%d.%d" % sys.version_info[:3],
@@ -1155,7 +1195,8 @@ def replay(path):
         rec = {"outcome": "sequence:" + (v["class"] if v else "clean")}
     else:
         img = core.unb64(r["image_b64"])
-        rec = run_single_image(img, r["name"], r["fast_load"], r["get_code"], True, kind=r.get("storage_object", "file"))
+        rec = run_single_image(img, r["name"], r["fast_load"], r["get_code"], True, kind=r.get("storage_object", "file"),
+                               call=r.get("call"))
         v = rec.get("violation")
     want = sig_key(r["signature"])
     if v is not None and sig_key(signature(v)) == want:
@@ -1208,7 +1249,7 @@ def collect_violations(tot, sweep):
         p = plan_run(x["i"])
         base = W["bases"][p.base_index].data if p.base_index >= 0 else None
         viols.append({"v": x["v"], "image": p.image, "name": p.name, "fast_load": p.fast_load,
-                      "get_code": p.get_code, "base": base, "kind": p.kind,
+                      "get_code": p.get_code, "base": base, "kind": p.kind, "call": p.call,
                       "sequence": [_item_of(plan_run(i)) for i in x["v"]["sequence"]] if x["v"].get("sequence") else None,
                       "origin": {"run_index": x["i"], "run_seed": p.seed, "base": p.base_desc, "faults": p.faults}})
     for x in sweep["violations"]:
